@@ -404,6 +404,8 @@ func checkC12(r *Report) {
 	r.floor("C12.c/BORROWED-ARG", "call sites of MatchRequirement", n, 2)
 	exactTagRule(r, p)
 	tagListRule(r, p, "C12.f/TAG-LIST")
+	nGE := guardBeforeEraseRule(r, p, "C12.i/GUARD-BEFORE-ERASE")
+	r.floor("C12.i/GUARD-BEFORE-ERASE", "guards in package semver that refuse a version because of its prerelease tags", nGE, 1)
 	sortWholeRule(r, p, "C12.g/SORT-WHOLE")
 	matchSortsRule(r, p, "C12.h/MATCH-SORTS")
 	var matchFns []*ssa.Function
